@@ -4,7 +4,9 @@ A *case* is a dict
     {'role': 'soupClient'|'soupServer'|'fix', 'ci': <client interval>, 'si': <server interval>,
      'events': [[t, ev], ...], 'horizon': H}
 with all times in grid units after login (one unit = UNIT virtual seconds), `ev` one of
-    'send' | 'sendhb' | 'recv:hb' | 'recv:msg' | 'recv:frag' | 'close'.
+    'send' | 'send:<variant>' | 'sendhb' | 'recv:hb' | 'recv:msg' | 'recv:frag' | 'close'.
+`send:<variant>` names which application-send entry point of the session API is used (SEND_VARIANTS below; plain `send` is the
+first variant of the role).  For the model every one of them is the same event: an application send = any non-heartbeat write.
 Generated cases keep monitor ticks on even instants (even intervals) and external events on odd instants, so that no
 external event ever ties with a tick (the model resolves such a tie as "tick first"; the real loop by float noise).
 
@@ -25,6 +27,13 @@ from vloop import VirtualLoop, FakeTransport, turns, until
 UNIT = 0.00125          # virtual seconds per grid unit: interval 8 units = 0.01 s
 ROLES = ('soupClient', 'soupServer', 'fix')
 SETTLE = 0.0005         # virtual seconds allowed for the login exchange (reader poll is 0.0001 s)
+
+# every way the session API offers to send an application (= non-heartbeat) message, per role
+SEND_VARIANTS = {
+    'soupClient': ['unseq', 'debug', 'msg-unseq', 'msg-debug', 'msg-login'],
+    'soupServer': ['seq', 'seq-obj', 'debug', 'msg-seq', 'msg-debug'],
+    'fix': ['nope', 'login', 'nope-user'],
+}
 
 KNOWN_LOCAL = []        # no pending finding: the server call-site defect (C08-server-heartbeat-args) is fixed in /repo 757e1aa;
 #                         its failing histories live in corpus/C08, corpus/C09 and must pass
@@ -195,15 +204,46 @@ class Rig:
             return (soup.ServerHeartbeat() if kind == 'hb' else soup.SequencedData(b'x')).to_bytes()[1]
         return (soup.ClientHeartbeat() if kind == 'hb' else soup.UnSequencedData(b'x')).to_bytes()[1]
 
+    def app_send(self, variant):
+        """one application send through the named entry point of the session API"""
+        s = self.s
+        if self.role == 'fix':
+            fixm = _fix_libs()['fixm']
+            if variant == 'nope':
+                s.send_msg(fixm.Nope())
+            elif variant == 'login':
+                s.send_msg(_fix_login_msg('CLIENT', 'SERVER'))
+            elif variant == 'nope-user':
+                m = fixm.Nope()
+                m.Username = 'someone'
+                s.send_msg(m)
+            else:
+                raise ValueError(variant)
+            return
+        soup = _libs()['soup']
+        if variant == 'unseq':
+            s.send_unseq_data(b'x')
+        elif variant == 'seq':
+            s.send_seq_msg(b'x')
+        elif variant == 'seq-obj':
+            s.send_seq_msg(soup.SequencedData(b'yz'))
+        elif variant == 'debug':
+            s.send_debug('dbg')
+        elif variant == 'msg-unseq':
+            s.send_msg(soup.UnSequencedData(b''))
+        elif variant == 'msg-seq':
+            s.send_msg(soup.SequencedData(b'q'))
+        elif variant == 'msg-debug':
+            s.send_msg(soup.Debug(''))
+        elif variant == 'msg-login':
+            s.send_msg(soup.LoginRequest('u', 'p', '', '1'))
+        else:
+            raise ValueError(variant)
+
     async def do(self, ev):
         s = self.s
-        if ev == 'send':
-            if self.role == 'fix':
-                s.send_msg(_fix_libs()['fixm'].Nope())
-            elif self.role == 'soupClient':
-                s.send_unseq_data(b'x')
-            else:
-                s.send_seq_msg(b'x')
+        if ev == 'send' or ev.startswith('send:'):
+            self.app_send(ev[5:] or SEND_VARIANTS[self.role][0])
         elif ev == 'sendhb':
             if self.role == 'fix':
                 s.send_msg(_fix_libs()['fixm'].Heartbeat())
@@ -307,7 +347,7 @@ def model_request(case):
         if t > now:
             out.append(['adv', t - now])
             now = t
-        out.append({'send': 'send', 'sendhb': 'sendhb', 'close': 'close'}.get(ev) or ['recv', ev[5:]])
+        out.append('send' if ev.startswith('send:') else {'send': 'send', 'sendhb': 'sendhb', 'close': 'close'}.get(ev) or ['recv', ev[5:]])
     if case['horizon'] > now:
         out.append(['adv', case['horizon'] - now])
     return f"hb.run {case['role']} {case['ci']} {case['si']} {sx(out)}"
@@ -432,6 +472,14 @@ def merge(*lists):
         out += [list(e) for e in li]
     out.sort(key=lambda e: e[0])
     return out
+
+
+def vary_sends(rng, case):
+    """choose the entry point of every application send at random (the model does not distinguish them)"""
+    for e in case['events']:
+        if e[1] == 'send':
+            e[1] = 'send:' + rng.choice(SEND_VARIANTS[case['role']])
+    return case
 
 
 def shrink(case, fails):
